@@ -185,7 +185,10 @@ func algorithmHashTable(c *Ctx, r *Report, rule string) {
 
 // ecdsaWidths: the ECDSA writer (setPublicKeyECDSA) and reader (publicKeyECDSA) agree on the coordinate width per
 // algorithm, and it is RFC 6605's: algorithm 13 -> 32 octets per coordinate (64 in the key), 14 -> 48 (96).
-func ecdsaWidths(c *Ctx, r *Report, rule string) {
+func ecdsaWidths(c *Ctx, r *Report, rule string) { ecdsaWidthsExec(c, r, rule) }
+
+// ecdsaWidthsAST is the first, spelling-bound form of the rule (kept for reference; not run).
+func ecdsaWidthsAST(c *Ctx, r *Report, rule string) {
 	algs := c.algorithmConsts()
 	type entry struct{ alg, width int64 }
 	collect := func(fname string, wantAssign bool) (map[int64]int64, bool) {
